@@ -6,7 +6,7 @@ from ..core import Fail
 
 PID = "C05"
 RULE = ("pairs of shapes of all kinds in general position (int/Fraction exact; a float stream at the property's 1e-5 "
-        "tolerance; circle-vs-square in the thorough tier) and nested expressions; for every moment of order <= 2: "
+        "tolerance; circle-vs-square in the thorough tier), pairs sharing one complete boundary curve (a polygon with holes against one of its holes or its complement) and nested expressions; for every moment of order <= 2: "
         "m(A|B)+m(A&B) = m(A)+m(B), m(A-B) = m(A)-m(A&B), m(A^B) = m(A|B)-m(A&B), m(~A) = -m(A), Whole counted as 0; "
         "each operator evaluated on fresh operands; non-trivial = boundaries cross or a composite operand; distinct = SHA-1")
 PROOF_STATUS = ("Props/C05.v: m(~A) = -m(A) for all polygonal shapes (reversal), split leaves the area and the winding "
@@ -28,6 +28,14 @@ def cases(ctx):
         env = OC.component_env(rng, R=rng.choice([8, 12])) if i % 2 else OC.nested_env(rng)
         if env is not None:
             yield {"env": env, "num": "frac"}
+    # operands that share one complete boundary curve: a polygon with holes against one of its holes (or the
+    # complement of the hole), both orders
+    for i in range(ctx.n(6, 120)):
+        h = G.holed_shape(rng, R=rng.choice([10, 14]), den=rng.choice([1, 2]), nholes=rng.choice([1, 2]))
+        if h[0] != "C":
+            continue
+        K = ("S", U.reverse_jordan(h[1][1])) if i % 2 else ("S", h[1][1])
+        yield {"env": [h, K] if i % 4 < 2 else [K, h], "num": "frac", "shared_curve": True}
     sq = ("S", G.verts_to_jordan(G.ccw([(F(0), F(0)), (F(3), F(0)), (F(3), F(3)), (F(0), F(3))])))
     yield {"env": [sq, ("E",)], "num": "frac"}
     yield {"env": [("W",), sq], "num": "frac"}
@@ -85,7 +93,7 @@ def check(ctx, case):
             return x == y
         return abs(x - y) <= tol * max(scale, F(1, 1000))
 
-    if exact and not case.get("curved") and all(x[0] not in "EW" for x in case["env"]):
+    if exact and not case.get("curved") and not case.get("shared_curve") and all(x[0] not in "EW" for x in case["env"]):
         # the computable premise of theorem C05_inclusion_exclusion_partial, evaluated by the extracted model
         cov = ctx.model.branch_faithful(case["env"][0], case["env"][1])
         ctx.count("theorem-premise:" + ("holds" if cov else "fails"))
